@@ -242,6 +242,7 @@ class Family:
         w("  refine forall4 ?_ ?_ ?_ ?_ <;> refine forall4 ?_ ?_ ?_ ?_ <;>")
         w("    (simp only [jet, Fin.sum_univ_four, Fin.isValue, Fin.reduceEq, if_true, if_false, reduceIte, %s]; jet_close)" % SIMPS)
         w("")
+        w("set_option maxHeartbeats 1000000 in")
         w("theorem jet_symm %s : (jet %s).IsSymm := by" % (binder, av))
         w("  refine ⟨?_, ?_, ?_, ?_, ?_⟩")
         w("  · " + " <;> ".join(["refine forall4 ?_ ?_ ?_ ?_"] * 2) + " <;> rfl")
@@ -399,6 +400,20 @@ def families():
                      sp.Matrix([[-1, 0, 0, 0], [0, B, 1, 1], [0, 1, B, 0], [0, 1, 0, B]]),
                      {t: [one, Z, Z, Z], A: [Z, Z, Z, A1], A1: [Z, Z, Z, A2]},
                      "Non-diagonal metric `−dt² + tA(z) δ_ij dx^i dx^j + 2 dx dy + 2 dx dz` with `A1 = ∂_z A`, `A2 = ∂_z² A`.")
+    # Lambda-Szekeres (class II): -dt^2 + A (dx^2 + dy^2 + Z^2 dz^2), Z = b(z) f(t) + 1 + Bc b(z) (x^2+y^2),
+    # background: A2 = (A1^2 + 4 Lam A^2)/(4A) [FLRW ij equation], growing mode: f' = (4 Bc - (3A1^2/(4A^2) - Lam) f A)/A1
+    A, A1, Lam, Bc, f, b, b1, b2, x, y, Zs = sp.symbols("A A1 Lam Bc f b b1 b2 x y Z")
+    A2 = (A1**2 + 4 * Lam * A**2) / (4 * A)
+    kr = 3 * A1**2 / (4 * A**2) - Lam
+    f1 = (4 * Bc - kr * f * A) / A1
+    F["Szek"] = Family("Szek", [A, A1, Lam, Bc, f, b, b1, b2, x, y, Zs], [A, A1, Zs], sp.diag(-1, A, A, A * Zs**2),
+                       {A: [A1, Z, Z, Z], A1: [A2, Z, Z, Z], f: [f1, Z, Z, Z], b: [Z, Z, Z, b1], b1: [Z, Z, Z, b2],
+                        x: [Z, one, Z, Z], y: [Z, Z, one, Z],
+                        Zs: [b * f1, 2 * Bc * b * x, 2 * Bc * b * y, b1 * f + Bc * b1 * (x**2 + y**2)]},
+                       "Λ-Szekeres metric `−dt² + A(t)(dx² + dy² + Z² dz²)` with `Z = b(z) f(t) + 1 + Bc b(z)(x²+y²)` kept as a "
+                       "field variable with `∂_t Z = b f'`, `∂_x Z = 2 Bc b x`, `∂_y Z = 2 Bc b y`, `∂_z Z = b1 f + Bc b1 (x²+y²)`; "
+                       "background `∂_t A = A1`, `∂_t A1 = (A1² + 4ΛA²)/(4A)` (the FLRW `ij` equation), growing mode "
+                       "`f' = (4Bc − (3A1²/(4A²) − Λ) f A)/A1`; `b1 = ∂_z b`, `b2 = ∂_z² b`.")
     return F
 
 
